@@ -952,9 +952,9 @@ def knot_refinement(degree, knotvector, ctrlpts, **kwargs):
                     new_ctrlpts[idx - 1] = [alpha * p1 + (1.0 - alpha) * p2 for p1, p2 in
                                             zip(new_ctrlpts[idx - 1], new_ctrlpts[idx])]
                 else:
-                    for idx2 in range(len(ctrlpts[0])):
-                        new_ctrlpts[idx - 1][idx2] = [alpha * p1 + (1.0 - alpha) * p2 for p1, p2 in
-                                                      zip(new_ctrlpts[idx - 1][idx2], new_ctrlpts[idx][idx2])]
+                    # Generate a new row; the existing one can be a row of the input control points
+                    new_ctrlpts[idx - 1] = [[alpha * p1 + (1.0 - alpha) * p2 for p1, p2 in zip(r1, r2)]
+                                            for r1, r2 in zip(new_ctrlpts[idx - 1], new_ctrlpts[idx])]
         new_kv[k] = X[j]
         k = k - 1
         j -= 1
